@@ -80,7 +80,9 @@ def download_expedited(idx, sub, data, size_indicated=True):
     return Outcome("ok", stats={"mode": "exp"})
 
 
-def download_segmented(idx, sub, data, size_indicated=True, announce=None, fill_rng=None):
+def download_segmented(idx, sub, data, size_indicated=True, announce=None, fill_rng=None, segbytes=7, n0_last=False):
+    """segbytes: data bytes per segment (1..7; CiA 301 lets every segment carry fewer than 7); n0_last: the last segment says n = 0
+    ("segment size not indicated"), which CiA 301 allows when the total size was indicated in the initiate request."""
     size = len(data) if announce is None else announce
     cmd = 0x21 if size_indicated else 0x20
     resp = yield bytes([cmd]) + mux(idx, sub) + (le32(size) if size_indicated else bytes(4))
@@ -94,11 +96,13 @@ def download_segmented(idx, sub, data, size_indicated=True, announce=None, fill_
     pos = 0
     nseg = 0
     while True:
-        chunk = data[pos:pos + 7]
+        chunk = data[pos:pos + segbytes]
         pos += len(chunk)
         last = pos >= len(data)
         n = 7 - len(chunk)
         pad = bytes(fill_rng.getrandbits(8) for _ in range(n)) if fill_rng else bytes(n)
+        if last and n0_last and size_indicated:
+            n = 0
         resp = yield bytes([(t << 4) | (n << 1) | (1 if last else 0)]) + chunk + pad
         nseg += 1
         r = _one(resp, "download segment %d" % nseg)
